@@ -3,6 +3,7 @@ package main
 import (
 	dtpb "github.com/google/fhir/go/proto/google/fhir/proto/r4/core/datatypes_go_proto"
 	cpb "github.com/google/fhir/go/proto/google/fhir/proto/r4/core/codes_go_proto"
+	opb "github.com/google/fhir/go/proto/google/fhir/proto/r4/core/resources/observation_go_proto"
 	ppb "github.com/google/fhir/go/proto/google/fhir/proto/r4/core/resources/patient_go_proto"
 )
 
@@ -28,5 +29,24 @@ func basePatient() *ppb.Patient {
 			{Preferred: &dtpb.Boolean{Value: true}, Language: &dtpb.CodeableConcept{Text: fstr("en")}},
 			{Preferred: &dtpb.Boolean{Value: false}, Language: &dtpb.CodeableConcept{Text: fstr("fr")}},
 		},
+	}
+}
+
+// temporalObservation carries one element of every temporal type: valueTime 14:30:15.250, component valueTime
+// 00:00:01 / 23:59:59 / 12:00, effectiveDateTime 2024-03-10T01:30:00+05:30, issued 2024-03-09T20:00:00.123Z.
+func temporalObservation() *opb.Observation {
+	tm := func(h, m, s, ms int64, p dtpb.Time_Precision) *dtpb.Time {
+		return &dtpb.Time{ValueUs: ((h*60+m)*60+s)*1e6 + ms*1000, Precision: p}
+	}
+	comp := func(t *dtpb.Time) *opb.Observation_Component {
+		return &opb.Observation_Component{Code: &dtpb.CodeableConcept{Text: fstr("c")}, Value: &opb.Observation_Component_ValueX{Choice: &opb.Observation_Component_ValueX_Time{Time: t}}}
+	}
+	return &opb.Observation{
+		Id:        &dtpb.Id{Value: "o1"},
+		Code:      &dtpb.CodeableConcept{Text: fstr("t")},
+		Value:     &opb.Observation_ValueX{Choice: &opb.Observation_ValueX_Time{Time: tm(14, 30, 15, 250, dtpb.Time_MILLISECOND)}},
+		Component: []*opb.Observation_Component{comp(tm(0, 0, 1, 0, dtpb.Time_SECOND)), comp(tm(23, 59, 59, 0, dtpb.Time_SECOND)), comp(tm(12, 0, 0, 0, dtpb.Time_MICROSECOND))},
+		Effective: &opb.Observation_EffectiveX{Choice: &opb.Observation_EffectiveX_DateTime{DateTime: &dtpb.DateTime{ValueUs: 1710014400000000, Timezone: "+05:30", Precision: dtpb.DateTime_SECOND}}},
+		Issued:    &dtpb.Instant{ValueUs: 1710014400123000, Timezone: "Z", Precision: dtpb.Instant_MILLISECOND},
 	}
 }
